@@ -158,6 +158,26 @@ func c06valid(rng *rand.Rand, link oracle.Link, kind string) []byte {
 			ethSrc = c06macB
 		}
 		return oracle.BuildEth(c06macA, ethSrc, oracle.EtherTypeARP, oracle.BuildARP(uint16(1+rng.Intn(2)), sha, c06ip(rng), tha, c06ip(rng)))
+	case "eth-in-eth":
+		// transparent Ethernet bridging (0x6558): an Ethernet frame inside an Ethernet frame
+		var inner []byte
+		switch rng.Intn(4) {
+		case 0:
+			inner = oracle.BuildEth(c06macB, c06macA, 0xcad5, []byte{1, 2, 3, 4, 5, 6, 7, 8, 9, 10})
+		case 1:
+			var sha [6]byte
+			rng.Read(sha[:])
+			inner = oracle.BuildEth(c06macB, sha, oracle.EtherTypeARP, oracle.BuildARP(2, sha, c06ip(rng), c06macA, c06ip(rng)))
+		case 2:
+			src, dst := c06ip(rng), c06ip(rng)
+			inner = oracle.BuildEth(c06macB, c06macA, oracle.EtherTypeIPv4, oracle.BuildIPv4(oracle.NewIPSpec(src, dst, oracle.ProtoTCP), c06tcp(rng, src, dst)))
+		default:
+			inner = []byte{0, 1, 8, 0, 6, 4, 0, 2, 9, 9, 9, 9} // looks like the start of an ARP body
+		}
+		if link != oracle.LinkEthernet {
+			return c06wrap(link, oracle.BuildIPv4(spec(97), inner)) // EtherIP (protocol 97) in raw-IP mode
+		}
+		return oracle.BuildEth(c06macA, c06macB, 0x6558, inner)
 	case "arp-sizes":
 		sizes := []uint8{0, 1, 2, 4, 6, 8, 16, 128, 255}
 		hl, pl := sizes[rng.Intn(len(sizes))], sizes[rng.Intn(len(sizes))]
@@ -187,7 +207,7 @@ func c06valid(rng *rand.Rand, link oracle.Link, kind string) []byte {
 	return b
 }
 
-var c06kinds = []string{"tcp", "udp", "icmp", "ipip-tcp", "ipip-udp", "ipip-icmp", "ipip-none", "ipip-ipip-tcp", "frag-first", "frag-later", "other-proto", "arp", "arp-sizes", "ipv6", "ethertype", "version6-in-ipv4", "random"}
+var c06kinds = []string{"tcp", "udp", "icmp", "ipip-tcp", "ipip-udp", "ipip-icmp", "ipip-none", "ipip-ipip-tcp", "frag-first", "frag-later", "other-proto", "arp", "arp-sizes", "eth-in-eth", "ipv6", "ethertype", "version6-in-ipv4", "random"}
 
 // c06mutate applies one structure-aware mutation.
 func c06mutate(rng *rand.Rand, link oracle.Link, f []byte) []byte {
